@@ -3,7 +3,8 @@ import GoawkModel.C08
 C08 models, part 2: `csvSplitter.scan` as a split function with its state, and the `bufio.Scanner` loop that drives it.
 
 `csvScan cfg st data atEOF` is one call of `(*csvSplitter).scan`: it answers "request more data", "advance over the header
-row" or "here is a record (advance, fields, $0)". The code reads whole lines (`readLine` gives up when a line is incomplete
+row (no data row available yet)" or "here is a record (advance, fields, $0)", the latter possibly together with the header
+names when the header row and the first data row are handled in one call. The code reads whole lines (`readLine` gives up when a line is incomplete
 and EOF is not known), so a record is decided exactly when the byte-level parse of `C08.fieldsFuel` ends at a line break —
 or at the end of the data when `atEOF`. State = `noBOMCheck` and `rowNum == 0`; it changes only when bytes are consumed.
 
@@ -19,8 +20,9 @@ deriving Repr, DecidableEq
 
 inductive Dec where
   | more                                                   -- (0, nil, nil)
-  | header (n : Nat) (names : List Bytes)                  -- (advance, nil, nil) + setFieldNames
-  | record (n : Nat) (fields : List Bytes) (text : Bytes)  -- (advance, token, nil) + *s.fields = fields
+  | skip (n : Nat) (names : List Bytes)                    -- (advance, nil, nil) + setFieldNames: header row, no data row yet
+  | record (n : Nat) (names : Option (List Bytes)) (fields : List Bytes) (text : Bytes)
+                                                           -- (advance, token, nil) + *s.fields = fields (+ setFieldNames)
 deriving Repr, DecidableEq
 
 /-- the comment lines and empty lines at the front (the `for` loop around `readLine`) -/
@@ -33,21 +35,33 @@ def skipLines (cfg : Cfg) : Nat → Bytes → Bytes
     else if r.head? = some 13 ∧ r.tail.head? = some 10 then skipLines cfg n r.tail.tail
     else r
 
-def csvScan (cfg : Cfg) (st : St) (data : Bytes) (atEOF : Bool) : Dec :=
-  let skipB := if !st.noBOM && bom.isPrefixOf data then 3 else 0
+/-- one row: `none` = "request more data", else (advance, fields, `$0`) -/
+def scanRow (cfg : Cfg) (noBOM : Bool) (data : Bytes) (atEOF : Bool) : Option (Nat × List Bytes × Bytes) :=
+  let skipB := if !noBOM && bom.isPrefixOf data then 3 else 0
   let d0 := data.drop skipB
-  if atEOF && d0.isEmpty then .more else
+  if atEOF && d0.isEmpty then none else
   let (d, cr) := if atEOF then dropFinalCR d0 else (d0, false)
   let r := skipLines cfg (d.length + 1) d
-  if r.isEmpty then .more else
+  if r.isEmpty then none else
   match fieldsFuel cfg.sep (r.length + 1) r with
   | (fs, r', endedEOF, hasCR) =>
-    if endedEOF && !atEOF then .more else
+    if endedEOF && !atEOF then none else
     let consumed := r.length - r'.length
     let skip := skipB + (d.length - r.length)
     let advance := skip + consumed + (if endedEOF && cr then 1 else 0)
-    if st.row0 && cfg.header then .header advance fs
-    else .record advance fs (recordText (r.take consumed) endedEOF cr hasCR)
+    some (advance, fs, recordText (r.take consumed) endedEOF cr hasCR)
+
+/-- one call of `csvSplitter.scan`. After the header row the code goes on, in the same call, with the first data row of
+`origData[advance:]` (so that a nil token is not returned when a data row is already there: at EOF `bufio.Scanner` would stop). -/
+def csvScan (cfg : Cfg) (st : St) (data : Bytes) (atEOF : Bool) : Dec :=
+  match scanRow cfg st.noBOM data atEOF with
+  | none => .more
+  | some (adv, fs, text) =>
+    if st.row0 && cfg.header then
+      match scanRow cfg true (data.drop adv) atEOF with
+      | none => .skip adv fs
+      | some (n, fs2, t2) => .record (adv + n) (some fs) fs2 t2
+    else .record adv none fs text
 
 structure Out where
   names : Option (List Bytes) := none
@@ -66,11 +80,12 @@ def run (cfg : Cfg) (eofWith : Bool) : Nat → St → Bytes → List Bytes → B
       | c :: cs => run cfg eofWith fuel st (buf ++ c) cs false out
     if !buf.isEmpty || eof then
       match csvScan cfg st buf eof with
-      | .record n fs t =>
+      | .record n names fs t =>
         if 0 < n ∧ n ≤ buf.length then
-          run cfg eofWith fuel { noBOM := true, row0 := false } (buf.drop n) chunks eof { out with recs := out.recs ++ [(fs, t)] }
+          run cfg eofWith fuel { noBOM := true, row0 := false } (buf.drop n) chunks eof
+            { names := if names.isSome then names else out.names, recs := out.recs ++ [(fs, t)] }
         else out
-      | .header n fs =>
+      | .skip n fs =>
         if n ≤ buf.length then read { noBOM := true, row0 := false } (buf.drop n) { out with names := some fs } else out
       | .more => read st buf out
     else read st buf out
